@@ -322,8 +322,14 @@ pub fn run_trace(args: &[String]) {
                 let mut ops: Vec<Value> = Vec::new();
                 let mut objs: Vec<(u64, Call, bool)> = Vec::new(); // (id, object, is a more-call)
                 let mut next_id = (t as u64) * 10 + 1;
-                start.wait();
                 for _ in 0..nops {
+                    // the k-th operations of all threads start together (a rendezvous, then a short spin so that being woken up
+                    // late by the barrier does not serialise them), sometimes staggered on purpose
+                    start.wait();
+                    let t0 = std::time::Instant::now();
+                    while t0.elapsed() < Duration::from_micros(150) {
+                        std::hint::spin_loop();
+                    }
                     if rng.chance(1, 3) {
                         std::thread::sleep(Duration::from_micros(rng.below(300) as u64));
                     }
@@ -338,7 +344,10 @@ pub fn run_trace(args: &[String]) {
                         let mut sc: Vec<Value> = (0..k).map(|_| json!({"cont": true, "err": "", "par": "ok"})).collect();
                         sc.push(finals[rng.below(finals.len())].clone());
                         let mode = ["call", "more", "more", "oneway"][rng.below(4)];
-                        let call: Call = MethodCall::new(conn.clone(), format!("org.example.t.M{}", c), json!({"script": sc, "c": c}));
+                        // a third of the requests are big: whatever a call does between looking at the connection and owning it
+                        // (encoding, copying) then takes long enough for another thread to get in between
+                        let pad = if rng.chance(1, 3) { "p".repeat(150_000) } else { String::new() };
+                        let call: Call = MethodCall::new(conn.clone(), format!("org.example.t.M{}", c), json!({"script": sc, "c": c, "pad": pad}));
                         objs.push((c, call, mode == "more"));
                         (c, "send", mode, json!(sc))
                     } else if choice < 9 {
